@@ -1122,7 +1122,19 @@ class BlockwiseRequest(BaseUnicastRequest, interfaces.Request):
             )
             obs.on_cancel(subtask.cancel)
             del obs
-            await subtask
+            try:
+                await subtask
+            finally:
+                # The subtask gives up the lower observation when it ends, but
+                # it may never get to run: when the application has cancelled
+                # the observation before this point (or does so right when the
+                # response completes, before the subtask has taken its first
+                # step), the subtask is cancelled before it starts, and a
+                # task cancelled that early executes none of its code. The
+                # lower observation would then keep its token registered (and
+                # every notification acknowledged) for good.
+                if not lower_observation.cancelled:
+                    lower_observation.cancel()
 
     @classmethod
     async def _run_observation(
